@@ -105,8 +105,72 @@ let parse_addr (s : string) : addr =
 
 let unhex s = if s = "-" then [] else bytes_of_hex s
 
+(* ---------- the primitive record: every field asks the primitive server ---------- *)
+let cipher_name c = match int_of_n c with 0 -> "aes128gcm" | 1 -> "aes256gcm" | 2 -> "chacha20" | 3 -> "chacha8" | 4 -> "xchacha20" | _ -> "xchacha8"
+let ask_bytes q = match prim_ask q with Some h -> unhex h | None -> failwith ("primitive failed: " ^ q)
+let prims : prims = {
+  p_seal = (fun c k n a m -> ask_bytes (Printf.sprintf "seal %s %s %s %s %s" (cipher_name c) (hx k) (hx n) (hx a) (hx m)));
+  p_open = (fun c k n a m -> match prim_ask (Printf.sprintf "open %s %s %s %s %s" (cipher_name c) (hx k) (hx n) (hx a) (hx m)) with Some h -> Some (unhex h) | None -> None);
+  p_hkdf_sha1 = (fun ikm salt info len -> ask_bytes (Printf.sprintf "hkdf1 %s %s %s %d" (hx ikm) (hx salt) (hx info) (int_of_n len)));
+  p_b3derive = (fun ctx m -> ask_bytes (Printf.sprintf "b3derive %s %s" (hx ctx) (hx m)));
+  p_b3hash = (fun m -> ask_bytes ("b3hash " ^ hx m));
+  p_aes_enc = (fun k b -> ask_bytes (Printf.sprintf "aesenc %s %s" (hx k) (hx b)));
+  p_aes_dec = (fun k b -> ask_bytes (Printf.sprintf "aesdec %s %s" (hx k) (hx b)));
+  p_md5 = (fun m -> ask_bytes ("md5 " ^ hx m));
+  p_sha224 = (fun m -> ask_bytes ("sha224 " ^ hx m));
+  p_sha256 = (fun m -> ask_bytes ("sha256 " ^ hx m));
+  p_shake128 = (fun seed n -> ask_bytes (Printf.sprintf "shake128 %s %d" (hx seed) (int_of_n n)));
+  p_crc32 = (fun m -> n_of_hex (hex_of_bytes (ask_bytes ("crc32 " ^ hx m))));
+}
+
+let csv s = if s = "-" || s = "" then [] else String.split_on_char ',' s
+let kind_of = function
+  | "a128" -> K_A128 | "a256" -> K_A256 | "cc20" -> K_CC20 | "22a128" -> K22_A128 | "22a256" -> K22_A256
+  | "22cc8" -> K22_CC8 | _ -> K22_CC20
+
+let fstatus_str = function
+  | Waiting -> "WAIT" | Failed e -> "ERR " ^ string_of_err e | Panicked -> "PANIC" | Livelock -> "LIVELOCK"
+
+(* sstcp: script on one codec instance, mirrored op by op *)
+let run_sstcp kind key ikeys users mode own_salt addr now ops =
+  let cx = { c_kind = kind_of kind; c_key = unhex key; c_ikeys = List.map unhex (csv ikeys);
+             c_users = (if users = "none" then None else Some (List.map (fun u ->
+               match String.split_on_char ':' u with [h; k] -> { u_hash = unhex h; u_key = unhex k } | _ -> failwith "user") (csv users))) } in
+  let md = if mode = "client" then Client else Server in
+  let now = n_of_int (int_of_string now) in
+  let new_sess () = { s_mode = md; s_salt = unhex own_salt; s_req_salt = None; s_user = None;
+                      s_addr = (if addr = "-" then None else Some (parse_addr addr)) } in
+  let cache = ref [] and sess = ref (new_sess ()) and cd = ref codec_new and buf = ref [] and dead = ref false in
+  let dec (s, d) src =
+    let (c', r) = ss_decode prims cx now !cache s d src in
+    cache := c';
+    match r with
+    | Ok (((s', d'), src'), it) -> Ok (((s', d'), src'), it)
+    | Err e -> Err e | Panic -> Panic in
+  let outs = List.map (fun op ->
+    if op = "" then None else
+    let c = op.[0] and arg = String.sub op 1 (String.length op - 1) in
+    if !dead && c <> 'N' then Some "SKIP" else
+    match c with
+    | 'N' -> sess := new_sess (); cd := codec_new; buf := []; dead := false; Some "NEW"
+    | 'E' | 'e' ->
+      (match ss_encode prims cx now [] !sess !cd (unhex arg) with
+       | Ok (cd', out) -> cd := cd'; Some (if c = 'E' then "OK " ^ hx out else "OK")
+       | Err e -> dead := true; Some ("ERR " ^ string_of_err e)
+       | Panic -> dead := true; Some "PANIC")
+    | _ ->
+      let ((((s', d'), b'), items), st) = feed dec (!sess, !cd) !buf (unhex arg) in
+      let its = String.concat "," (List.map hx items) in
+      (match st with
+       | Waiting -> sess := s'; cd := d'; buf := b';
+         Some (Printf.sprintf "WAIT [%s] rest=%d addr=%s" its (List.length b') (match s'.s_addr with Some a -> addr_str a | None -> "-"))
+       | _ -> dead := true; Some (Printf.sprintf "%s [%s]" (fstatus_str st) its))
+  ) (String.split_on_char ';' ops) in
+  String.concat " | " (List.filter_map (fun x -> x) outs)
+
 let run_case (fields : string list) : string =
   match fields with
+  | "sstcp" :: kind :: key :: ikeys :: users :: mode :: salt :: addr :: now :: ops :: _ -> run_sstcp kind key ikeys users mode salt addr now ops
   | "s5enc" :: a :: _ -> let a = parse_addr a in Printf.sprintf "OK %s %d" (hx (s5_encode a)) (int_of_n (s5_length a))
   | "s5dec" :: b :: _ -> show_res (fun (a, rest) -> addr_str a ^ " " ^ hx rest) (s5_decode (unhex b))
   | "s5try" :: b :: at :: _ ->
